@@ -518,6 +518,7 @@ func TestVerif_C13(t *testing.T) {
 		c.Bound(fmt.Sprintf("alphabet_full_%s_cols%v_rows%v", cf.kind, cf.cols, cf.rows), len(hFull.Alphabet))
 		c.Bound(fmt.Sprintf("alphabet_depth3_%s_cols%v_rows%v", cf.kind, cf.cols, cf.rows), len(hMid.Alphabet))
 	}
+	c13KeyedPart(c) // keyed index + keyed mutex field / bool field: API.Import's keyed route
 	c.AddValidated(c.Evaluations)
 	c.Assume("two columns of one shard (in the same and in different containers of a row) and three rows (two for bool; adjacent and far apart) are representative: the mutex logic is per column and compares row ids only for equality")
 	if c.Finish() != 0 {
